@@ -33,8 +33,13 @@ func runC07N2(c *Ctx) {
 	n := 0
 	for _, f := range c.region(serve) {
 		var loads []ssa.Instruction
+		// a load site: a call of a loader, or of a helper of the region that may load the page itself (`x.writePage()`)
+		isLoad := liftMay(func(i ssa.Instruction) bool {
+			cc := callCommon(i)
+			return cc != nil && isLoader(cc.StaticCallee())
+		})
 		eachInstr(f, func(i ssa.Instruction) {
-			if cc := callCommon(i); cc != nil && isLoader(cc.StaticCallee()) {
+			if _, isCall := i.(*ssa.Call); isCall && isLoad(i) {
 				loads = append(loads, i)
 			}
 		})
@@ -53,71 +58,125 @@ func runC07N2(c *Ctx) {
 }
 
 // runC07W2: optional-interface methods of response-writer wrappers (Flush) forward on every path on which the wrapped
-// writer supports them.
+// writer supports them. The forwarding call is a Flush on an interface value or (*http.ResponseController).Flush, in
+// the method or in a helper it delegates to; the only edges a path may leave by without flushing are those on which
+// the wrapped writer is known not to be a Flusher (the comma-ok of the type assertion is false, or the Flusher that
+// was obtained from such an assertion - possibly when the wrapper was built, kept in a field - is nil).
 func runC07W2(c *Ctx) {
+	c07buildFields(c.AllFns)
 	n := 0
 	for _, f := range c.fnsWhere("proxy", func(fn *ssa.Function) bool {
 		return fn.Signature.Recv() != nil && fn.Name() == "Flush" && fn.Signature.Params().Len() == 0
 	}) {
-		// the forwarding call: Flush on a value asserted from a field of the receiver
-		var fwd []ssa.Instruction
-		var assertOK ssa.Value
-		eachInstr(f, func(i ssa.Instruction) {
-			cc := callCommon(i)
-			if cc != nil && cc.IsInvoke() && cc.Method.Name() == "Flush" {
-				fwd = append(fwd, i)
-			}
-			if ta, ok := i.(*ssa.TypeAssert); ok && ta.CommaOk && strings.HasSuffix(typeStr(ta.AssertedType), "http.Flusher") {
-				for _, r := range *ta.Referrers() {
-					if ex, ok := r.(*ssa.Extract); ok && ex.Index == 1 {
-						assertOK = ex
-					}
-				}
-			}
-		})
-		if len(fwd) == 0 {
+		if !mayExec(f, c07isFlushForward, 1) {
 			continue
 		}
 		n++
-		// every path from entry to a return passes the forwarding call, except over the edge "not a Flusher"
-		open := false
-		seen := map[*ssa.BasicBlock]bool{f.Blocks[0]: true}
-		stack := []*ssa.BasicBlock{f.Blocks[0]}
-		for len(stack) > 0 && !open {
-			b := stack[len(stack)-1]
-			stack = stack[:len(stack)-1]
-			blocked := false
-			for _, in := range b.Instrs {
-				for _, w := range fwd {
-					if in == w {
-						blocked = true
-					}
-				}
-				if blocked {
-					break
-				}
-				if _, isRet := in.(*ssa.Return); isRet {
-					open = true
-				}
-			}
-			if blocked {
-				continue
-			}
-			for _, s := range b.Succs {
-				skipEdge := false
-				if assertOK != nil && len(b.Instrs) > 0 {
-					if iff, ok := b.Instrs[len(b.Instrs)-1].(*ssa.If); ok && iff.Cond == assertOK && b.Succs[1] == s {
-						skipEdge = true // the wrapped writer cannot flush
-					}
-				}
-				if !skipEdge && !seen[s] {
-					seen[s] = true
-					stack = append(stack, s)
-				}
-			}
-		}
+		open := c07flushOpen(f, 0)
 		c.check("C07.W2", fnKey(f)+"|Flush forwarded whenever the wrapped writer can flush", f.Pos(), !open,
 			"the wrapper's Flush can return without flushing the wrapped writer: httputil.ReverseProxy relies on Flush after the body to force chunked framing when the upstream sent trailers it had not announced — with the flush swallowed (e.g. 'nothing written since the last flush') the response goes out with Content-Length and the upstream's trailer fields are lost")
 	}
 	c.atLeast("C07.W2", "Flush methods of response-writer wrappers in package proxy", n, 1)
+}
+
+func c07isFlushForward(i ssa.Instruction) bool {
+	cc := callCommon(i)
+	if cc == nil {
+		return false
+	}
+	if _, isCall := i.(*ssa.Call); !isCall {
+		return false // go / defer of a flush is not a flush before the return... a deferred one is, but keep it simple
+	}
+	if cc.IsInvoke() {
+		return cc.Method.Name() == "Flush"
+	}
+	return calleeName(cc) == "(*net/http.ResponseController).Flush"
+}
+
+// c07flusherAssert: v is the Flusher obtained by asserting some writer to http.Flusher.
+func c07flusherAssert(v ssa.Value) bool {
+	if ex, ok := v.(*ssa.Extract); ok && ex.Index == 0 {
+		v = ex.Tuple
+	}
+	ta, ok := v.(*ssa.TypeAssert)
+	return ok && strings.HasSuffix(typeStr(ta.AssertedType), "http.Flusher")
+}
+
+// c07noFlusherEdge: the edge p -> s is taken only when the wrapped writer cannot flush.
+func c07noFlusherEdge(p, s *ssa.BasicBlock) bool {
+	f, ok := c07edgeFact(p, s)
+	if !ok {
+		return false
+	}
+	if ex, isEx := f.Cond.(*ssa.Extract); isEx && ex.Index == 1 && !f.Truth {
+		if ta, isTA := ex.Tuple.(*ssa.TypeAssert); isTA && ta.CommaOk && strings.HasSuffix(typeStr(ta.AssertedType), "http.Flusher") {
+			return true
+		}
+	}
+	nonNil, isNil := nilFact(f, func(v ssa.Value) bool {
+		if !strings.HasSuffix(typeStr(v.Type()), "http.Flusher") {
+			return false
+		}
+		if c07flusherAssert(v) {
+			return true
+		}
+		// kept in a field of the wrapper when it was built
+		sts := c07fieldSources(v)
+		for _, st := range sts {
+			if !c07comesFrom(st.Val, c07flusherAssert) {
+				return false
+			}
+		}
+		return len(sts) > 0
+	})
+	return isNil && !nonNil
+}
+
+// c07flushOpen: f can return without having passed a forwarding Flush, other than over an edge on which the wrapped
+// writer is known not to be a Flusher.
+func c07flushOpen(f *ssa.Function, depth int) bool {
+	if len(f.Blocks) == 0 {
+		return true
+	}
+	passes := func(in ssa.Instruction) bool {
+		if c07isFlushForward(in) {
+			return true
+		}
+		call, ok := in.(*ssa.Call)
+		if !ok || depth >= 2 {
+			return false
+		}
+		sc := call.Call.StaticCallee()
+		if sc == nil || !isRepoFn(sc) || len(sc.Blocks) == 0 {
+			return false
+		}
+		g := unwrap(sc)
+		return g != f && mayExec(g, c07isFlushForward, 1) && !c07flushOpen(g, depth+1)
+	}
+	seen := map[*ssa.BasicBlock]bool{f.Blocks[0]: true}
+	stack := []*ssa.BasicBlock{f.Blocks[0]}
+	for len(stack) > 0 {
+		b := stack[len(stack)-1]
+		stack = stack[:len(stack)-1]
+		blocked := false
+		for _, in := range b.Instrs {
+			if passes(in) {
+				blocked = true
+				break
+			}
+			if _, isRet := in.(*ssa.Return); isRet {
+				return true
+			}
+		}
+		if blocked {
+			continue
+		}
+		for _, s := range b.Succs {
+			if !seen[s] && !c07noFlusherEdge(b, s) {
+				seen[s] = true
+				stack = append(stack, s)
+			}
+		}
+	}
+	return false
 }
